@@ -10,11 +10,17 @@ class _C:
 def main():
     bad = 0
     for m in sorted(pkgutil.iter_modules(props.__path__), key=lambda m: m.name):
-        mod = importlib.import_module(f"vlib.props.{m.name}")
+        if m.name.startswith("_"):
+            continue
+        try:
+            mod = importlib.import_module(f"vlib.props.{m.name}")
+        except Exception as ex:  # a module under construction must not break setup for the others
+            print(f"[setup_facts] {m.name}: import failed: {ex!r}", file=sys.stderr)
+            continue
         if hasattr(mod, "facts"):
             try:
                 mod.facts(_C())
-            except common.TieBroken as ex:
+            except Exception as ex:
                 # leave a stub so the rest of the project still builds; the property's check reports the broken tie
                 print(f"[setup_facts] {m.name}: {ex}", file=sys.stderr)
                 bad += 1
